@@ -16,7 +16,9 @@ CLAUSES = {
     "C04": ["P04_wire_is_a_sequence_of_well_formed_responses", "P04_at_most_one_response_per_request",
             "P04_responses_in_request_order", "P04_response_body_intact", "P04_every_finished_request_has_its_response",
             "P04_only_the_last_response_may_be_cut", "P04_request_of_unknown_connection",
-            "P04_executed_in_arrival_order_exactly_once", "P04_one_request_at_a_time"],
+            "P04_executed_in_arrival_order_exactly_once", "P04_one_request_at_a_time",
+            # "each exactly once" is also "at least once": at rest, with a client that reads, nothing is left unserved
+            "P05_every_complete_request_answered", "P05_no_unserviced_request_at_quiescence", "P05_no_livelock"],
     "C05": ["P05_no_livelock", "P05_no_undelivered_output_at_quiescence", "P05_no_unserviced_request_at_quiescence",
             "P05_close_decision_carried_out", "P05_input_not_left_unread", "P05_every_complete_request_answered",
             "P05_dead_connection_closed", "P05_no_producer_waits_at_quiescence"],
@@ -26,7 +28,7 @@ CLAUSES = {
     "C12": ["P12_pending_output_bounded_by_watermark_plus_one_write", "P12_paused_producer_released",
             "P04_wire_is_a_sequence_of_well_formed_responses", "P04_response_body_intact", "P04_responses_in_request_order",
             # the backlog of a draining client empties: a stuck byte count is output lost or invented by the buffers
-            "P05_no_livelock", "P05_no_undelivered_output_at_quiescence"],
+            "P05_no_livelock", "P05_no_undelivered_output_at_quiescence", "P05_every_complete_request_answered", "P05_no_unserviced_request_at_quiescence"],
     "C13": ["P13_torn_down_exactly_once", "P13_buffers_released", "P13_open_connection_stays_polled",
             "P13_other_connections_undisturbed", "P13_listener_and_trigger_survive", "P13_only_the_io_thread_tears_down",
             "P13_no_thread_dies", "P13_io_loop_alive", "P13_workers_alive",
@@ -82,6 +84,12 @@ def mk(reqs, *, lookahead=0, workers=1, room=None, split="one", apps=None, adj=N
                 buf += h + b
         if buf:
             client.append(["send", buf])
+    elif split == "cutfollower":
+        # the first request and the beginning of the second in one read, the rest of the second later
+        first = parts[0][0] + parts[0][1]
+        rest = b"".join(h + b for h, b in parts[1:])
+        client.append(["send", first + rest[:12]])
+        client.append(["send", rest[12:]])
     elif split == "half":
         data = b"".join(h + b for h, b in parts)
         client.append(["send", data[: len(data) // 2]])
@@ -115,7 +123,7 @@ def cfg_of(scn):
         for r in c.get("requests", []):
             kind = r.get("kind", "plain")
             spec = apps.get(str(r["k"]), {})
-            chunks = [c for c in spec.get("chunks", [3]) if c != "sync"]
+            chunks = [c for c in spec.get("chunks", [3]) if c not in ("sync", "peer")]
             total = sum(chunks)
             cl = spec.get("cl", "exact")
             rlen = total
@@ -170,7 +178,7 @@ def explore_and_validate(chk, pid, scns, n_pct, dfs_limit, bound=2, label=""):
         if e.get("k") == "end":
             brief["conns"] = [{k: v for k, v in c.items() if k in ("c", "resp", "closed", "total", "nreq", "will_close", "cwf", "waiting", "garbage", "wire_error", "maxpending", "maxwrite", "client_done", "nclose", "in_map")} for c in e["conns"]]
         sig = {"kind": "schedule", "clauses": sorted(clauses), "scenario": scn.get("name", "")}
-        sig.update(classify(scn, ev, clauses))
+        sig.update(classify(scn, ev, clauses, pos))
         chk.violation(sig, "scenario %s: event %d violates %s: %s" % (scn.get("name") or json.dumps(scn)[:200], pos, sorted(clauses), json.dumps(brief, default=str)[:900]),
                       replay={"scenario": _jsonable(scn), "schedule": choices})
     if traces and len(chk.samples) < 3:
@@ -180,9 +188,17 @@ def explore_and_validate(chk, pid, scns, n_pct, dfs_limit, bound=2, label=""):
     return traces, rej
 
 
-def classify(scn, ev, clauses):
+def classify(scn, ev, clauses, pos=0):
     """Call-site facts used to match known findings (never to suppress new ones)."""
     out = {}
+    # K-C11-io-decision-races-chain: the only close decision before the offending application start was taken by the
+    # I/O thread (a send error in its own flush), the teardown had not begun, and no worker had decided anything
+    bad = ev[pos - 1] if 0 < pos <= len(ev) else {}
+    before = [e for e in ev[:max(pos - 1, 0)] if e.get("c") == bad.get("c")]
+    dec = [e for e in before if (e["k"] == "flag") or (e["k"] == "fault" and e.get("hard"))]
+    out["io_decision_races_chain"] = bool(sorted(clauses) == ["P11_no_execution_after_close_decision"] and bad.get("k") == "app_start" and dec
+                                          and all(e.get("by") == "io" for e in dec) and any(e["k"] == "fault" for e in dec)
+                                          and not any(e["k"] == "closing" for e in before))
     kinds = [r.get("kind", "plain") for c in scn["conns"] for r in c.get("requests", [])]
     out["has_expect"] = any(k.startswith("expect") for k in kinds)
     out["expect_nobody"] = "expect_nobody" in kinds
